@@ -733,6 +733,17 @@ class Dumper {
           });
         }
       });
+      J.attributeArray("aliases", [&] {
+        for (auto* D : R->decls()) {
+          if (auto* TD = dyn_cast<TypedefNameDecl>(D)) {
+            J.object([&] {
+              J.attribute("n", TD->getNameAsString());
+              J.attribute("t", typeStr(TD->getUnderlyingType()));
+              J.attribute("l", (int64_t)lineOf(userLoc(TD->getLocation())));
+            });
+          }
+        }
+      });
       J.attributeArray("methods", [&] {
         for (auto* D : R->decls()) {
           const FunctionDecl* FD = nullptr;
